@@ -7,6 +7,7 @@ package main
 // transactions through DeliverTx for every message type, signed by the creator and by another key.
 
 import (
+	"math/big"
 	"encoding/hex"
 	"fmt"
 	"math/rand"
@@ -293,7 +294,7 @@ func runMsgs(seed int64, histories, steps int, out *Emitter) {
 				}
 			}()
 			post, bad := c.storageAbs(users)
-			gid, gacc := gaugeDelta(pre, post, c.T.UnixNano(), c.T.UnixNano()+((pf.Expires-c.H)*6/60/60/24)*86400_000_000_000)
+			gid, gacc := gaugeDelta(pre, post, c.T.UnixNano(), new(big.Int).Add(big.NewInt(c.T.UnixNano()), new(big.Int).Mul(big.NewInt((pf.Expires-c.H)*6/60/60/24), big.NewInt(86400_000_000_000))))
 			inner := map[string]interface{}{"creator": creator, "merkle": hex.EncodeToString(merkle), "fileSize": pf.FileSize, "maxProofs": pf.MaxProofs, "expires": pf.Expires, "proofType": 0,
 				"note": "{}", "noteValid": true, "jklPrice": BigNum{c.A.StorageKeeper.GetJklPrice(c.Ctx()).BigInt()}, "gaugeId": gid, "gaugeAcc": gacc}
 			out.Emit(map[string]interface{}{"mod": "wasm", "hist": hi, "i": i, "h": c.H, "now": c.T.UnixNano(), "pre": pre, "contract": contract.String(),
